@@ -26,6 +26,32 @@ func main() {
 	switch os.Args[1] {
 	case "fn":
 		os.Exit(cmdFn(os.Args[2:]))
+	case "static":
+		// pverif static <kind> <pkgrel> k=v ... : run one static obligation kind ad hoc (development aid)
+		prog, err := LoadProg([]string{os.Args[3]})
+		if err != nil {
+			fmt.Fprintln(os.Stderr, err)
+			os.Exit(2)
+		}
+		sc := StaticCheck{Kind: os.Args[2], Pkg: os.Args[3], Name: os.Args[2], Args: map[string]string{}}
+		for _, kv := range os.Args[4:] {
+			if i := strings.Index(kv, "="); i > 0 {
+				sc.Args[kv[:i]] = kv[i+1:]
+			}
+		}
+		r := runStatic(prog, sc)
+		fmt.Printf("%d obligations, %d discharged\n", r.Obligations, r.Discharged)
+		for _, f := range r.Failures {
+			fmt.Println("FAIL", f)
+		}
+		for _, t := range r.Trusted {
+			fmt.Println("trusted:", t)
+		}
+		for _, sm := range r.Samples {
+			fmt.Println("sample:", sm)
+		}
+		fmt.Println("detail:", r.Detail)
+		os.Exit(0)
 	case "modset":
 		prog, err := LoadProg([]string{os.Args[2]})
 		if err != nil {
